@@ -209,6 +209,11 @@ def _(m):
     set_object_fields(m.DC, [ObjectField("a_b", str, required=False, default="dflt")])
 
 
+@op("cache.set_size=64")
+def _(m):
+    apischema.cache.set_size(64)
+
+
 @op("set_object_fields:DC+rec")
 def _(m):
     # the class becomes recursive after its first use
